@@ -78,6 +78,13 @@ def o_sighash(case):
     n_in = case["n_in"] % len(txd["ins"])
     amount = case["amount"]
     code = A.render(case["code"])
+    if case.get("partial") and len(case["code"]) >= 2:
+        # some other code in the process has looked at this very script before, from an instruction boundary inside it
+        # (a tool listing what follows the first instruction): the digest is a function of the bytes, not of who read them
+        try:
+            list(BTC.script.get_opcodes(code, pc=len(A.render(case["code"][:1]))))
+        except ScriptError:
+            pass
     amounts = [(amount if k == n_in else 7 + k) for k in range(len(txd["ins"]))]
     tx = _pycoin_tx(T, txd, amounts, only=n_in if case.get("partial") else None)
     snap = _snapshot(tx)
